@@ -36,9 +36,10 @@ EXPLANATION = ("Proved in Lean over the table extracted from the current tree: e
                "sanitised runs of the CLI on corpus + mutated inputs: memory safety, UB-freedom and global termination of the unmodelled C++ code; "
                "exceptions of std functions outside the extracted set (substr/erase/insert positions, bad_alloc outside the funnel, iostream).")
 THEOREMS = ["Cppcheck.ExcFunnel.escape_sound", "Cppcheck.ExcFunnel.no_abort", "Cppcheck.ExcFunnel.pathOk_aborts",
-            "Cppcheck.C13.funnel_complete", "Cppcheck.C13.funnel_complete_partial", "Cppcheck.C13.finding_paths_real",
-            "Cppcheck.C13.funnel_full_iff_no_alarm", "Cppcheck.C13.funnel_actions", "Cppcheck.C13.terminate_swallowed",
-            "Cppcheck.C13.funnel_takes_analysis_types"]
+            "Cppcheck.C13.cert_closed", "Cppcheck.C13.cert_entries_clear",
+            "Cppcheck.C13.funnel_complete", "Cppcheck.C13.funnel_complete_partial", "Cppcheck.C13.funnel_full_iff_no_alarm",
+            "Cppcheck.C13.finding_paths_real", "Cppcheck.C13.funnel_full_counterexample",
+            "Cppcheck.C13.funnel_actions", "Cppcheck.C13.terminate_swallowed", "Cppcheck.C13.funnel_takes_analysis_types"]
 MODULES = ["Cppcheck.Props.C13"]
 
 REPO = core.REPO
@@ -1030,11 +1031,10 @@ def gen_options(rng, lang):
     for _ in range(rng.choice([0, 0, 0, 1, 2])):
         nm = rng.choice(["A", "DEBUG", "X", "__cplusplus", "_WIN32", "NDEBUG", "f(x)", "M(a,b)", "V(...)"])
         val = rng.choice(["", "=1", "=0", "=x+1", "=\"s\"", "=(", "=a##b", "=#x", "=__VA_ARGS__"])
-        if "__VA_OPT__" in val:
-            continue
-        o.append(rng.choice(["-D", "-U"]) + nm + (val if o and not o[-1].startswith("-U") else ""))
-        if o[-1].startswith("-U"):
-            o[-1] = "-U" + nm.split("(")[0]
+        if rng.random() < 0.3:
+            o.append("-U" + nm.split("(")[0])
+        else:
+            o.append("-D" + nm + val)
     return o
 
 
